@@ -154,6 +154,14 @@ func (x *Exec) incrementalScriptFor(timeoutMs int, prop string) (string, []*Obli
 }
 
 func (x *Exec) incrementalScriptFor2(timeoutMs int, prop, class string) (string, []*Obligation) {
+	return x.incrementalScriptFor3(timeoutMs, prop, class, nil)
+}
+
+func (x *Exec) incrementalScriptFor3(timeoutMs int, prop, class string, only map[string]bool) (string, []*Obligation) {
+	return x.incrementalScriptFor4(timeoutMs, prop, class, only, nil)
+}
+
+func (x *Exec) incrementalScriptFor4(timeoutMs int, prop, class string, only, skip map[string]bool) (string, []*Obligation) {
 	var sb strings.Builder
 	sb.WriteString(fmt.Sprintf("(set-option :timeout %d)\n", timeoutMs))
 	sb.WriteString(x.header("z3"))
@@ -177,6 +185,12 @@ func (x *Exec) incrementalScriptFor2(timeoutMs int, prop, class string) (string,
 			continue
 		}
 		if class != "" && o.Class != class {
+			continue
+		}
+		if skip != nil && skip[o.Name] && o.KFKey == "" {
+			continue
+		}
+		if only != nil && !only[o.Name] && o.KFKey == "" && !only["kf:"+stripOrdinal(o.Name)] && !only["kf:"+o.Name] {
 			continue
 		}
 		for ; nf < o.NFacts; nf++ {
@@ -273,6 +287,8 @@ type SolveOpts struct {
 	FallbackS  int    // timeout for standalone fall-back runs
 	Thorough   bool   // run every solver on every obligation
 	KeepAll    bool
+	Skip       map[string]bool // obligations not to check (known unproven)
+	Only       map[string]bool // when set: only obligations with these names (plus known-finding carve-outs) are checked
 	ClassOnly  string // when set: only obligations of this class are checked
 	Prop       string // when set: only obligations tagged with this property are checked (the others are assumed)
 }
@@ -296,7 +312,7 @@ func (x *Exec) SolveFiltered(opts SolveOpts) ([]*OblResult, bool) {
 		results = append(results, r)
 		byObl[o] = r
 	}
-	script, order := x.incrementalScriptFor2(opts.QuickMs, opts.Prop, opts.ClassOnly)
+	script, order := x.incrementalScriptFor4(opts.QuickMs, opts.Prop, opts.ClassOnly, opts.Only, opts.Skip)
 	if len(order) == 0 {
 		return results, false
 	}
